@@ -116,6 +116,9 @@ fn occur_check(id1: IntermediateId, t2: TypeNodeId) -> bool {
         ),
         Type::Union(types) => vec_cls(types),
         Type::Boxed(b) => cls(*b),
+        // code and reference types wrap a type like arrays do (`w = lift(w)` asks for ?a = `?a)
+        Type::Code(c) => cls(*c),
+        Type::Ref(r) => cls(*r),
         _ => false,
     }
 }
